@@ -147,6 +147,19 @@ func c16Bijection(rp *runner.Report) int {
 				return evals
 			}
 		}
+		// IDs are stable across World.Reset, whatever the order of later look-ups
+		w.Reset()
+		if count() != limit {
+			c16Violation(rp, "registry:reset-count:"+kind, fmt.Sprintf("after Reset %d %s IDs are listed, expected %d", count(), kind, limit), []string{"register all types; World.Reset"})
+			return evals
+		}
+		for k := len(types) - 1; k >= 0; k -= 7 {
+			evals++
+			if got := regID(types[k]); int(got) != k {
+				c16Violation(rp, "registry:reset-unstable:"+kind, fmt.Sprintf("after Reset %s type number %d is reported as ID %d", kind, k, got), []string{"register all types; World.Reset; look the types up in reverse order"})
+				return evals
+			}
+		}
 	}
 	// a registration rejected in a locked world leaves the registry unchanged (also when the rejected type is a relation)
 	{
